@@ -3,7 +3,8 @@
    Everything volatile is re-derived from the durable state at start-up (the model's node IS its durable state),
    so a clean stop between any two applies splits one incarnation into two.  That shutdown completes and frees
    its resources is runtime behaviour the model does not carry: it is decided by the harness only (partial). *)
-From QV Require Import Base.Util Fsm.Fsm Fsm.FsmProofs.
+From QV Require Import Base.Util Base.HashSig Fsm.Fsm Fsm.FsmProofs Hyper.HyperModel Hyper.HyperBatch Hyper.HyperRefine
+  Hyper.HyperRefineSpec Hyper.HyperFind Hyper.HyperReopen Properties.Instance.
 
 Section C08.
   Variable Ev : Type.
@@ -17,9 +18,58 @@ Section C08.
   Proof. exact (restart_invisible Ev a b done rest). Qed.
 End C08.
 
+(* "Everything volatile is re-derived from the durable state": for the hyper tree the volatile part is the batch cache,
+   re-derived at start-up from the recovery tiles (balloon/hyper/rebuild.go, modelled node for node by
+   HyperBatch.rebuild / hb_reopen and compared with the Go code after every reopen).  Over any sequence of insertions
+   and re-creations of the tree object from the empty store: every call returns the digest of the published
+   construction over the insertions alone, and every later query is answered from it - re-creation is invisible. *)
+Section C08b.
+  Variables D E V : Type.
+  Variable H : hin D E V -> D.
+  Variable limit nbits : nat.
+  Hypothesis limit4 : (limit mod 4 = 0)%nat.
+  Hypothesis nbits4 : (nbits mod 4 = 0)%nat.
+  Hypothesis limit_pos : (0 < limit)%nat.
+  Hypothesis limit_lt : (limit < nbits)%nat.
+  Notation ds := (dlist D E V H nbits).
+
+  Theorem C08_hyper_tree_recreation_invisible ops key :
+    Forall (op_ok V nbits) ops -> length key = nbits ->
+    exists st', hb_runT D E V H limit nbits (hinit D V) ops =
+                  Some (fst (spec_run D E V H limit nbits [] (calls_of V ops)), st') /\
+      hb_find D E V H limit nbits ds st' key =
+        hyper_find D E V H nbits ds (ytree_of D E V H limit nbits ds (snd (spec_run D E V H limit nbits [] (calls_of V ops)))) key.
+  Proof. exact (hb_runT_from_empty D E V H limit nbits limit4 nbits4 limit_pos limit_lt ops key). Qed.
+
+  (* one re-creation, on any tables that represent a map with the tiles in step *)
+  Theorem C08_hyper_reopen_refines st m :
+    RepresentsT D E V H limit nbits st m ->
+    exists st', hb_reopen D E V H limit nbits ds st = Some st' /\ RepresentsT D E V H limit nbits st' m.
+  Proof. exact (reopen_specT D E V H limit nbits limit4 nbits4 limit_pos limit_lt st m). Qed.
+End C08b.
+
+Definition k12 (n : N) : key := map (fun i => N.testbit n (N.of_nat i)) [11; 10; 9; 8; 7; 6; 5; 4; 3; 2; 1; 0]%nat.
+Definition ops12 : list (hop N) :=
+  [HIns N [(k12 200, 0)]; HReopen N; HIns N [(k12 201, 1); (k12 3000, 2)]; HReopen N; HIns N [(k12 17, 3)]].
+(* 12-bit keys, cache limit 4: two cache levels above the recovery tiles, so the rebuild recomputes a level *)
+Example C08b_premises_hold :
+  (4 mod 4 = 0 /\ 12 mod 4 = 0 /\ 0 < 4 /\ 4 < 12)%nat /\ Forall (op_ok N 12) ops12 /\
+  match hb_runT D4 E4 N H4 4 12 (hinit D4 N) ops12 with
+  | Some (dsl, st') => dsl = fst (spec_run D4 E4 N H4 4 12 [] (calls_of N ops12)) /\
+                       fst (hb_find D4 E4 N H4 4 12 (dlist D4 E4 N H4 12) st' (k12 3000)) = Some 2
+  | None => False
+  end.
+Proof.
+  split; [repeat split; try reflexivity; lia|]. split.
+  - repeat constructor; try discriminate.
+  - vm_compute. split; reflexivity.
+Qed.
+
 Example C08_premises_hold :
   wf_log N 0 ([] ++ ([(1, [5])] ++ [(2, [6; 7])]) ++ []) /\
   concat (snd (life N (state_of N []) [[(1, [5])]; [(2, [6; 7])]])) = [Applied 0 1; Applied 1 2].
 Proof. cbn. repeat split; try lia; discriminate. Qed.
 
 Print Assumptions C08_restart_invisible.
+Print Assumptions C08_hyper_tree_recreation_invisible.
+Print Assumptions C08_hyper_reopen_refines.
